@@ -86,6 +86,7 @@ type Case struct {
 	BSize     int64      `json:"bsize"`
 	Fetched   int64      `json:"fetched"`
 	Stack     bool       `json:"stack"`                // also evaluate the stack oracle
+	Attach    bool       `json:"attach,omitempty"`     // the layer root is attached as a persistent child of a foreign go-fuse tree (store/fs.go) instead of being the root of its own NodeFS
 	StackOnly bool       `json:"stack_only,omitempty"` // the case is the stack itself (Coq: SC term for Model/Overlay.v), no node history
 	Fake      *FakeTree  `json:"fake,omitempty"`       // store == "fake": an arbitrary metadata tree served by an in-memory metadata.Reader
 	Ops       []Op       `json:"ops"`
@@ -355,7 +356,20 @@ func openRootOn(mr metadata.Reader, dg, toc digest.Digest, opaque int, base uint
 		rr.Close()
 		return nil, err
 	}
-	fusefs.NewNodeFS(root, &fusefs.Options{}) // initialises the root inode (as the server does on mount)
+	if attachMode {
+		// what store/fs.go layernode.Lookup does for the additional-layer store: the layer's root node becomes a persistent
+		// child inode ("diff") of a node of ANOTHER go-fuse tree; it is the root of the layer but not of the tree
+		parent := &fusefs.Inode{}
+		fusefs.NewNodeFS(parent, &fusefs.Options{})
+		var ao fuse.AttrOut
+		if errno := root.(fusefs.NodeGetattrer).Getattr(context.Background(), nil, &ao); errno != 0 {
+			ao.Attr.Mode, ao.Attr.Ino = sIFDIR|0o755, 0 // (a root id beyond the inode space: the store would refuse; attach anyway)
+		}
+		cn := parent.NewPersistentInode(context.Background(), root, fusefs.StableAttr{Mode: ao.Attr.Mode & sIFMT, Ino: ao.Attr.Ino})
+		parent.AddChild("diff", cn, true)
+	} else {
+		fusefs.NewNodeFS(root, &fusefs.Options{}) // initialises the root inode (as the server does on mount)
+	}
 	return &openLayer{blob: fb, mr: mr, root: root, dg: b.dg, close: func() { rr.Close() }}, nil
 }
 
@@ -2056,6 +2070,9 @@ func genOps(r *hx.Rng, c Case, isDir bool) []Op {
 // ---------------------------------------------------------------------------------------------
 
 var ncases int
+
+// attachMode: how openRootOn brings the layer root to life for the case being run (Case.Attach)
+var attachMode bool
 var stackEmptyDB int
 
 func main() {
@@ -2070,6 +2087,12 @@ func main() {
 		}
 	}()
 	emit := func(c Case) {
+		attachMode = c.Attach
+		if c.Attach {
+			ctx.Count("root.attached-as-child")
+		} else {
+			ctx.Count("root.own-nodefs")
+		}
 		stackSeed := func() uint64 {
 			h := sha256.Sum256([]byte(fmt.Sprint(c.Layers, c.Store, c.Opaque)))
 			return uint64(h[0]) | uint64(h[1])<<8 | ctx.Seed<<16
@@ -2163,7 +2186,7 @@ func main() {
 			for k := 0; k < 4; k++ {
 				ft := genFake(g)
 				for _, pth := range []string{"", "d"} {
-					c := Case{Store: "fake", Fake: ft, Path: pth, Opaque: g.Intn(3), Base: uint32(g.Pick(3, 3, 1) * g.Range(1, 70000)),
+					c := Case{Store: "fake", Fake: ft, Attach: k%2 == 1, Path: pth, Opaque: g.Intn(3), Base: uint32(g.Pick(3, 3, 1) * g.Range(1, 70000)),
 						BSize: int64(g.Range(1, 1<<20)), Fetched: int64(g.Intn(1 << 16))}
 					c.Ops = genOps(g, c, true)
 					emit(c)
@@ -2178,6 +2201,7 @@ func main() {
 		}
 		base := Case{Layers: layers, Store: []string{"memory", "db"}[g.Intn(2)], Opaque: g.Intn(3), Base: uint32(g.Pick(3, 3, 1) * g.Range(1, 70000)),
 			BSize: int64(g.Range(1, 1<<20)), Fetched: int64(g.Intn(1 << 16))}
+		base.Attach = g.Bool()
 		sc := base
 		sc.StackOnly = true
 		emit(sc)
@@ -2211,6 +2235,18 @@ func main() {
 }
 
 func corpus() []Case {
+	cs := corpusCases()
+	// every fixed case both ways: the layer root as the root of its own NodeFS, and attached as a child of a foreign tree
+	n := len(cs)
+	for i := 0; i < n; i++ {
+		c := cs[i]
+		c.Attach = true
+		cs = append(cs, c)
+	}
+	return cs
+}
+
+func corpusCases() []Case {
 	f := func(p string) TarEnt { return TarEnt{P: p, K: "f", M: 0o644} }
 	d := func(p string) TarEnt { return TarEnt{P: p, K: "d", M: 0o755} }
 	lower := []TarEnt{d("a"), f("a/f"), f("a/g"), d("a/c"), f("a/c/h"), f("f"), d("b"), f("b/e")}
